@@ -15,6 +15,9 @@ pub struct Case {
     pub schedule: Schedule,
     pub reader_kind: u8,
     pub filter: u8,
+    /// a second filter configuration passed at the odd-numbered calls (the filter is an argument of every call)
+    #[serde(default)]
+    pub filter2: Option<u8>,
     pub systematic: bool,
 }
 
@@ -169,6 +172,9 @@ fn compare(c: &Case, sched: &Schedule, api_sel: u64, pass: &mut Pass) -> Result<
 }
 
 pub fn check(c: &Case) -> CheckResult {
+    crate::props::readers::with_alternating_filter(c.filter2, || check_inner(c))
+}
+fn check_inner(c: &Case) -> CheckResult {
     let mut pass = Pass::new(false);
     compare(c, &c.schedule, API_MESSAGE, &mut pass)?;
     compare(c, &c.schedule, API_SLICE, &mut pass)?;
@@ -210,16 +216,17 @@ pub fn strategy() -> impl Strategy<Value = Case> {
         any::<bool>(),
         schedule(),
         0u8..6,
-        prop_oneof![3 => Just(0u8), 1 => 1u8..8],
+        (prop_oneof![3 => Just(0u8), 1 => 1u8..8], prop_oneof![6 => Just(None), 1 => (0u8..8).prop_map(Some)]),
         prop::bool::weighted(0.1),
     )
-        .prop_flat_map(|(storage, schedule, reader_kind, filter, systematic)| {
+        .prop_flat_map(|(storage, schedule, reader_kind, (filter, filter2), systematic)| {
             stream(storage).prop_map(move |stream| Case {
                 stream,
                 storage,
                 schedule: schedule.clone(),
                 reader_kind,
                 filter,
+                filter2,
                 systematic,
             })
         })
